@@ -27,7 +27,12 @@ class MysqlStream:
     async def read(self) -> bytes:
         data = b""
         while True:
-            header = await self.reader.read(4)
+            try:
+                header = await self.reader.readexactly(4)
+            except asyncio.IncompleteReadError as e:
+                if e.partial:
+                    raise
+                header = b""
 
             if not header:
                 raise ConnectionClosed()
